@@ -297,9 +297,14 @@ fn run_case(c: &SpawnCase, root: &std::path::Path, rep: &mut CaseReport) -> Resu
         cmd.pgroup(0);
     }
     let (uid, gid) = unsafe { (libc::getuid(), libc::getgid()) };
+    // an id no process can have: (uid_t)-1 / (gid_t)-1, which setuid / setgid refuse with EINVAL - the configured step
+    // fails, whatever the meaning of -1 in other calls (a share of the cases that configure ids)
+    let bad_uid = c.ids && c.exit_code % 7 == 3;
+    let bad_gid = c.ids && c.exit_code % 7 == 4;
     if c.ids {
-        cmd.uid(uid);
-        cmd.gid(gid);
+        cmd.uid(if bad_uid { u32::MAX } else { uid });
+        cmd.gid(if bad_gid { u32::MAX } else { gid });
+        rep.class_if(bad_uid || bad_gid, "configured-id-is-minus-one");
     }
     // raw fds for stdio mode 4: distinct temp files
     let mut raw: [Option<(i32, Ident)>; 3] = [None, None, None];
@@ -429,10 +434,14 @@ fn run_case(c: &SpawnCase, root: &std::path::Path, rep: &mut CaseReport) -> Resu
             if let Fault::Setuid(e) = c.fault {
                 rules.push(force(sc::nr::SETUID, Some(0), e, 1));
                 consider("setuid", Some(e), &mut first);
+            } else if bad_uid {
+                consider("setuid", Some(libc::EINVAL), &mut first);
             }
             if let Fault::Setgid(e) = c.fault {
                 rules.push(force(sc::nr::SETGID, Some(0), e, 1));
                 consider("setgid", Some(e), &mut first);
+            } else if bad_gid {
+                consider("setgid", Some(libc::EINVAL), &mut first);
             }
         }
         if c.pgroup {
@@ -759,7 +768,7 @@ fn run_case(c: &SpawnCase, root: &std::path::Path, rep: &mut CaseReport) -> Resu
     // ... and a Command whose spawn FAILED (at a step that was made to fail once) can be
     // completed and spawned again: the child then sees every argument, old and new
     let plan_fault = matches!(c.fault, Fault::Pipe2(..) | Fault::OpenNull(..) | Fault::Fork(..) | Fault::Dup(..) | Fault::Chdir(..) | Fault::Setuid(..) | Fault::Setgid(..) | Fault::Setpgid(..) | Fault::Execve(..));
-    let persistent = c.prog != 0 || c.cwd == 2 || c.closures.iter().any(|&x| x != 0);
+    let persistent = c.prog != 0 || c.cwd == 2 || c.closures.iter().any(|&x| x != 0) || bad_uid || bad_gid;
     if outcome.is_ok() && !first_ok && expect_err.is_some() && plan_fault && !persistent && !read_fault && !c.stdio.contains(&4) && !any_closed {
         let _ = std::fs::remove_file(&dump_path);
         let r: &UnixStr = &extra_arg;
